@@ -260,6 +260,14 @@ package main
 //@   at call sendClientResponse assert {answer-is-the-one-received-on-that-entrys-channel} arg0.Answer != "" ==> arg0.Answer == answer
 //@   at call Unlock assert {unregistered-when-the-matching-lock-is-released} held(&i.ctx.snowflakeLock) ==> !has(i.ctx.idToSnowflake, snowflake.id)
 //@   ensures {at-most-one-offer-sent} calls(matchSnowflake) <= 1
+//@   ensures {every-request-is-answered-unless-its-bridge-is-unknown} calls(sendClientResponse) == 1 || (err != nil && calls(matchSnowflake) == 0 && calls(sendClientResponse) == 0)
+//
+//@ func sendClientResponse(resp *messages.ClientPollResponse, response *[]byte) (err error)
+//@   props C14
+//@   flag nosafety
+//@   requires resp != nil && response != nil
+//@   after call EncodePollResponse ghost lastEncLen = len(ret0)
+//@   ensures {response-is-the-message-just-encoded} err == nil ==> calls(EncodePollResponse) == 1 && len(*response) == lastEncLen
 //
 // ProxyAnswers: the answer is routed by session id: the only send is on the answer channel of the entry registered
 // under the id decoded from the request, with the decoded answer; the send can be abandoned (timer case, B1) when the
@@ -272,11 +280,16 @@ package main
 //@   at call send assert {routed-by-session-id} ch == snowflake.answerChannel && value == answer && success
 //@   at call select ghost ansSends0 = sends(snowflake.answerChannel)
 //@   at call EncodeAnswerResponse assert {success-only-if-the-answer-was-handed-over} arg0 ==> snowflake != nil && sends(snowflake.answerChannel) == ansSends0 + 1
+//@   after call EncodeAnswerResponse ghost lastEnc = base(ret0)
+//@   after call EncodeAnswerResponse ghost lastEncLen = len(ret0)
+//@   ensures {response-is-the-message-just-encoded} err == nil ==> calls(EncodeAnswerResponse) == 1 && base(*response) == lastEnc && len(*response) == lastEncLen
 //
 // ProxyPolls: a proxy whose relay pattern is not acceptable is never registered; the relay URL handed out is the one
 // configured for the offer's bridge fingerprint.
+//@ ghost var lastEnc ref
+//@ ghost var lastEncLen int
 //@ func (i *IPC) ProxyPolls(arg messages.Arg, response *[]byte) (err error)
-//@   props C02, C04, C06
+//@   props C02, C04, C06, C14
 //@   flag nosafety
 //@   requires i != nil && i.ctx != nil && response != nil
 //   (label names: established by initPrometheus - ensures, checked - and kept by the immutability of every field on the way)
@@ -287,6 +300,13 @@ package main
 //@   at call RequestOffer assert {only-acceptable-patterns-are-registered} patternOK && arg1 == sid && arg3 == natType && arg4 == clients
 //@   at call EncodePollResponseWithRelayURL assert {explicit-rejection-or-the-offers-bridge} (!patternOK ==> arg0 == "" && !arg1 && arg3 == "" && arg4 == "incorrect relay pattern") && (patternOK ==> arg1 && arg3 == info.WebSocketAddress && arg2 == offer.natType && arg4 == "")
 //@   ensures {rejected-pattern-gets-no-client} !patternOK ==> calls(RequestOffer) == 0
+//   (C14: a poll that succeeds carries the message that was just encoded for it - never an empty or stale body)
+//@   at entry ghost lastEnc = 0
+//@   after call EncodePollResponseWithRelayURL ghost lastEnc = base(ret0)
+//@   after call EncodePollResponseWithRelayURL ghost lastEncLen = len(ret0)
+//@   after call EncodePollResponse ghost lastEnc = base(ret0)
+//@   after call EncodePollResponse ghost lastEncLen = len(ret0)
+//@   ensures {response-is-the-message-just-encoded} err == nil ==> calls(EncodePollResponseWithRelayURL) + calls(EncodePollResponse) == 1 && base(*response) == lastEnc && len(*response) == lastEncLen
 //
 // LoadBridgeInfo installs a list: on success the holder's map IS the newly parsed map (a bridge absent from the new
 // list is forgotten), on failure the old list stays.
@@ -329,6 +349,7 @@ package main
 // (empty) remote address, as the POST endpoint does; what is armored is exactly the response that method produced;
 // exactly one status line on every path.
 //@ ghost var ampDecoded ref
+//@ ghost var armorOpen bool
 //@ func ampClientOffers(i *IPC, w http.ResponseWriter, r *http.Request)
 //@   props C11, C14
 //@   requires i != nil && i.ctx != nil && w != nil && r != nil && r.URL != nil
@@ -337,6 +358,9 @@ package main
 //@   at call NewArmorEncoder assert {armor-only-after-200} calls(WriteHeader) == 1 && arg0 == w
 //@   at call Write assert {armors-exactly-the-response} base(arg0) == base(response) && len(arg0) == len(response)
 //@   ensures {exactly-one-status-line} calls(WriteHeader) == 1
+//@   at entry ghost armorOpen = false
+//@   after call NewArmorEncoder ghost armorOpen = ret1 == nil
+//@   ensures {armor-is-completed} armorOpen ==> calls(Close) == 1
 //
 // ---- Prometheus label sets (C14) ----
 // A vector's With panics (inside the Prometheus client, or in RoundedCounterVec.With) unless the label map it is given
